@@ -124,7 +124,7 @@ def tlc_cases(ctx):
                     for al in ((False, True) if t["al"] else (False,)):
                         out.append({"src": "tlc", "tree": t["tree"], "k": "std", "w": w, "d": d, "al": al, "sen": sen, "ind": 0, "tab": False})
     ctx.cov["model_cases"] = len(out)
-    cap = 9000 if ctx.quick else 150000
+    cap = 9000 if ctx.quick else 80000
     if len(out) > cap:
         rnd = random.Random(ctx.seed)
         out = rnd.sample(out, cap)
@@ -133,8 +133,10 @@ def tlc_cases(ctx):
 
 def main(ctx):
     # (a) design check
+    # (-coverage 1 makes TLC crawl on the recursive operators - > 10 min, out of memory; non-vacuity is shown instead by the
+    #  per-action step counts of the trace validation, all of which must be non-zero: see below)
     ctx.design("PrettyLayoutMC", "PrettyLayoutMC.cfg" if ctx.quick else "PrettyLayoutMC_full.cfg", workers=4 if ctx.quick else 8,
-               coverage=not ctx.quick, heap="6g", timeout=1500)
+               heap="6g", timeout=900)
     # (b) cases
     cs = tlc_cases(ctx)
     lb = ctx.build("layout")
@@ -150,6 +152,11 @@ def main(ctx):
     recs = judge(ctx, cases)
     for r in recs:
         ctx.add(r["api"], r["kind"], r["locus"], r["witness"], case=r["case"], detail=r.get("detail"))
+    idle = [k for k in ("lit", "atom", "one-line", "broken", "table", "tight", "empty-broken", "empty-object-broken")
+            if not (ctx.cov.get("machine_steps") or {}).get(k)]
+    if idle:
+        raise Infra("machine actions never taken by any real output (vacuous run): %s" % idle)
+    ctx.cov["coverage_zero_actions"] = idle
     fams = {}
     for k, c in enumerate(cs):
         fams[c["src"]] = fams.get(c["src"], 0) + 1
